@@ -121,6 +121,35 @@ def summaries(t, m, report):
             bad('raised:' + name, '%s raised %s: %s' % (name, type(e).__name__, str(e)[:200]))
             return False, None
 
+    # ---- first access: every accessor below converts the stored layout as a side effect, so whichever runs
+    # first is the only one that sees the layout the history left behind.  Which one that is rotates with the
+    # concrete state (deterministically), so over the explored states each of them meets every layout.
+    if N and Mm:
+        import functools
+        rot = O.concrete_key(t) % 7
+
+        def fold(ax):
+            vs = [D[:, j] for j in range(Mm)] if ax == 'sample' else [D[i, :] for i in range(N)]
+            return [functools.reduce(lambda a, b: a * 2 + b, [float(x) for x in v]) for v in vs]
+        first = {0: ('reduce-fold(observation)', lambda: t.reduce(lambda a, b: a * 2 + b, 'observation'),
+                     lambda: fold('observation'), 'reduce:observation:order'),
+                 1: ('reduce-fold(sample)', lambda: t.reduce(lambda a, b: a * 2 + b, 'sample'),
+                     lambda: fold('sample'), 'reduce:sample:order'),
+                 2: ('nonzero_counts(observation)', lambda: t.nonzero_counts('observation', binary=False),
+                     lambda: D.sum(axis=1), 'nonzero_counts:observation:sum'),
+                 3: ('nonzero_counts(sample)', lambda: t.nonzero_counts('sample', binary=True),
+                     lambda: (D != 0).sum(axis=0), 'nonzero_counts:sample:binary'),
+                 4: ('sum(observation)', lambda: t.sum('observation'), lambda: D.sum(axis=1), 'sum:observation'),
+                 5: ('to_dataframe(dense=True)', lambda: t.to_dataframe(dense=True).values, lambda: D,
+                     'to_dataframe(dense=True)')}.get(rot)
+        if first is not None:
+            ok, got = guard(first[0], first[1])
+            if ok:
+                if not _close(got, first[2]()):
+                    bad(first[3], '%s as the first access after the history: %r, matrix says %r'
+                        % (first[0], np.asarray(got).tolist(), np.asarray(first[2]()).tolist()))
+                else:
+                    _cnt('clause:first-access')
     # ---- sums
     for ax, exp in (('whole', D.sum()), ('sample', D.sum(axis=0)), ('observation', D.sum(axis=1))):
         ok, got = guard('sum(%s)' % ax, lambda: t.sum(ax))
